@@ -138,7 +138,18 @@ def local_expr(F, B, l, depth):
     rv = d[3]
     k = rv["k"]
     if k == "use":
-        return expr(F, B, rv["op"], depth + 1)
+        r = expr(F, B, rv["op"], depth + 1)
+        pl0 = operand_place(rv["op"])
+        if r[0] == "agg" and r[1] == "adt" and pl0 is not None and not pl0["p"] and len(r) > 5 and len(r[5]) == len(r[4]):
+            # the struct value was moved here (`let mut fill = SliceFill::new(..)`): fields stepped in this home count as well
+            ops = list(r[4])
+            for fi, fname in enumerate(r[5]):
+                st = _field_steps(B, l, fi)
+                if st is None:
+                    continue
+                ops[fi] = ("unknown", "field %s of _%d is assigned again" % (fname, l)) if st == "other" or ops[fi][0] == "induction" else ("induction", ops[fi], st[0], st[1])
+            r = r[:4] + (tuple(ops),) + r[5:]
+        return r
     if k == "cast":
         return ("cast", rv["cast"].split("(")[0], expr(F, B, rv["op"], depth + 1), F.ts(rv["ty"]))
     if k == "binop":
@@ -148,10 +159,90 @@ def local_expr(F, B, l, depth):
     if k in ("ref", "rawptr"):
         return ("addr", place_expr(F, B, rv["place"], depth + 1), place_str(rv["place"]), "raw" if k == "rawptr" else "ref")
     if k == "agg":
-        return ("agg", rv.get("agg"), rv.get("def") if rv.get("agg") == "closure" else rv.get("adt"), rv.get("variant"), tuple(expr(F, B, o, depth + 1) for o in rv["ops"]), tuple(rv.get("fields") or ()), rv.get("vi"))
+        ops = [expr(F, B, o, depth + 1) for o in rv["ops"]]
+        fields = tuple(rv.get("fields") or ())
+        if rv.get("agg") == "adt" and len(fields) == len(ops):
+            # fields assigned again after the value was built (`guard.filled += 1`): the aggregate's operand is only the initial
+            # value - a counter stepped by a constant becomes an induction node, anything else is unknown
+            for fi, fname in enumerate(fields):
+                st = _field_steps(B, l, fi)
+                if st is None:
+                    continue
+                if st == "other":
+                    ops[fi] = ("unknown", "field %s of _%d is assigned again" % (fname, l))
+                else:
+                    ops[fi] = ("induction", ops[fi], st[0], st[1])
+        return ("agg", rv.get("agg"), rv.get("def") if rv.get("agg") == "closure" else rv.get("adt"), rv.get("variant"), tuple(ops), fields, rv.get("vi"))
     if k == "discr":
         return ("discr", place_expr(F, B, rv["place"], depth + 1))
     return ("unknown", k)
+
+
+def _field_steps(B, l, fi):
+    """Direct assignments to field fi of local l after its construction: None if there are none, (k, bb) if the only one is
+    `l.f = l.f + k` for a constant k (also in the overflow-checked form), 'other' otherwise."""
+    cache = B.__dict__.setdefault("_field_steps_cache", {})
+    if (l, fi) in cache:
+        return cache[(l, fi)]
+    hits = []
+    # references to the whole local (`&mut guard`, as the inlined `self` of its methods) through which the field is written too
+    alias = set()
+    changed = True
+    while changed:
+        changed = False
+        for bl in B.blocks:
+            for s in bl["stmts"]:
+                if s["k"] != "assign" or s["lhs"]["p"] or s["lhs"]["l"] in alias:
+                    continue
+                rv = s["rv"]
+                if rv["k"] in ("ref", "rawptr") and ((rv["place"]["l"] == l and not rv["place"]["p"]) or (rv["place"]["l"] in alias and rv["place"]["p"] == ["deref"])):
+                    alias.add(s["lhs"]["l"])
+                    changed = True
+                elif rv["k"] == "use":
+                    pl = operand_place(rv["op"])
+                    if pl is not None and pl["l"] in alias and not pl["p"]:
+                        alias.add(s["lhs"]["l"])
+                        changed = True
+
+    def field_place(pl):
+        if pl is None:
+            return False
+        if pl["l"] == l and len(pl["p"]) == 1 and isinstance(pl["p"][0], dict) and pl["p"][0].get("f") == fi:
+            return True
+        return pl["l"] in alias and len(pl["p"]) == 2 and pl["p"][0] == "deref" and isinstance(pl["p"][1], dict) and pl["p"][1].get("f") == fi
+
+    for bi, bl in enumerate(B.blocks):
+        for s in bl["stmts"]:
+            if s["k"] == "assign" and field_place(s["lhs"]):
+                hits.append((bi, s))
+        t = bl["term"]
+        if t["k"] == "call" and t["dest"]["p"] and (field_place(t["dest"]) or (t["dest"]["l"] == l and isinstance(t["dest"]["p"][0], dict) and t["dest"]["p"][0].get("f") == fi)):
+            hits.append((bi, None))
+    res = None
+    if hits:
+        res = "other"
+        if len(hits) == 1 and hits[0][1] is not None:
+            bi, s = hits[0]
+            rv = s["rv"]
+
+            def is_self_field(op):
+                return field_place(operand_place(op))
+
+            binop = None
+            if rv["k"] == "binop":
+                binop = rv
+            elif rv["k"] == "use":
+                pl = operand_place(rv["op"])
+                if pl is not None and len(pl["p"]) == 1 and isinstance(pl["p"][0], dict) and pl["p"][0].get("adt") == "(tuple)" and pl["p"][0].get("f") == 0:
+                    d = B.single_def(pl["l"])
+                    if d and d[0] == "assign" and d[3]["k"] == "binop":
+                        binop = d[3]
+            if binop is not None and binop["op"].replace("WithOverflow", "").replace("Unchecked", "") == "Add":
+                k = operand_const(binop["b"]) if is_self_field(binop["a"]) else (operand_const(binop["a"]) if is_self_field(binop["b"]) else None)
+                if k is not None and "int" in k:
+                    res = (k["int"], bi)
+    cache[(l, fi)] = res
+    return res
 
 
 def _step_call(B, d):
